@@ -111,7 +111,8 @@ func (s *Server) referrerGet(repoStr, arg string) http.HandlerFunc {
 		}
 		// check page cache for digest, two users requesting same referrer list
 		if cacheResp, err := s.referrerCache.Get(referrerKey{repo: repoStr, subject: arg, dig: d.Digest, artifactType: filterAT}); err == nil {
-			if page >= len(cacheResp) {
+			if page >= len(cacheResp) || (page > 0 && cacheDig != d.Digest.String()) {
+				// the page counter belongs to another (outdated) response, the listing starts over
 				page = 0
 			}
 			if page+1 < len(cacheResp) {
